@@ -410,7 +410,14 @@ func scalarToHeader(a interface{}) (hdr *storage.Header, newAlloc bool) {
 	var raw []byte
 	switch at := a.(type) {
 	case Memory:
-		raw = storage.FromMemory(at.Uintptr(), at.MemSize())
+		// a scalar held in a tensor is an operand like any other: the kernels compute into the
+		// header when both sides have one element, so it gets a buffer of its own
+		src := storage.FromMemory(at.Uintptr(), at.MemSize())
+		raw = scalarPool(uintptr(len(src))).Get().([]byte)
+		copy(raw, src)
+		hdr = borrowHeader()
+		hdr.Raw = raw
+		return hdr, true
 	default:
 		raw = allocScalar(a)
 		newAlloc = true
